@@ -756,11 +756,11 @@ def sortcorr_case(draw, tier):
             lens[0] += 1
         n = sum(lens)
         case = draw(obs_list_case(tier, n, n, with_cov=draw(st.booleans())))
-        return {'flavour': 'obs', 'keys': keys, 'lens': lens, 'case': case}
+        return {'flavour': 'obs', 'keys': keys, 'lens': lens, 'case': case, 'yd_order': draw(st.permutations(list(range(nk))))}
     lens = [draw(st.integers(1, 4)) for _ in keys]
     n = sum(lens)
     upper = [draw(gen.fl(-1, 1)) for _ in range(n * (n - 1) // 2)]
-    return {'flavour': 'matrix', 'keys': keys, 'lens': lens, 'upper': upper}
+    return {'flavour': 'matrix', 'keys': keys, 'lens': lens, 'upper': upper, 'yd_order': draw(st.permutations(list(range(nk))))}
 
 
 def sortcorr_oracle(spec):
@@ -777,6 +777,8 @@ def sortcorr_oracle(spec):
             for j in range(i + 1, n):
                 M[i, j] = M[j, i] = next(it)
         yd = {k: [float(i) for i in range(ln)] for k, ln in zip(keys, lens)}
+        # the dictionary is only a lookup table: its insertion order is independent of the key list kl that defines the matrix layout
+        yd = {keys[i]: yd[keys[i]] for i in spec.get('yd_order', range(len(keys)))}
         got = np.asarray(pe.obs.sort_corr(M.copy(), list(keys), yd))
         want = M[np.ix_(order, order)]
         require(got.shape == want.shape and np.array_equal(got, want), 'sort_corr is not the permutation by sorted keys '
@@ -789,6 +791,7 @@ def sortcorr_oracle(spec):
             yd[k] = obs[ofs:ofs + ln]
             ofs += ln
         corr = np.asarray(pe.covariance(obs, correlation=True))
+        yd = {keys[i]: yd[keys[i]] for i in spec.get('yd_order', range(len(keys)))}
         got = np.asarray(pe.obs.sort_corr(corr.copy(), list(keys), yd))
         want = np.asarray(pe.covariance([o for k in sorted(keys) for o in yd[k]], correlation=True))
         require(got.shape == want.shape and np.all(np.abs(got - want) <= 1e-12), 'sorted correlation matrix differs from the correlation '
@@ -797,6 +800,7 @@ def sortcorr_oracle(spec):
         labs.add('unequal_blocks')
     invol = all(order[order[t]] == t for t in range(n))
     labs.add('perm:' + ('identity' if order == list(range(n)) else ('involution' if invol else 'general')))
+    labs.add('yd_order:' + ('as_kl' if list(spec.get('yd_order', range(len(keys)))) == list(range(len(keys))) else 'other'))
     return {'nt': order != list(range(n)), 'cls': sorted(labs)}
 
 
